@@ -97,6 +97,7 @@ def prelude(t, nodes, rng):
     is re-read from the tree afterwards."""
     from nutree import TreeError
 
+    gen.warm_queries(t)
     for _ in range(4):
         live = list(t)
         if not live:
